@@ -29,6 +29,7 @@ int vp_opt_sleep = 1;
 int vp_opt_tx_cost = 0;        /* ms of monotonic time a transmit takes (blocking raw-socket write, driver queue) */
 int vp_opt_hello_cost = 0;     /* ms the send_hello callback of the tick takes */
 int vp_opt_clock_tick = 0;     /* ms the clock moves on every read (the repository's unit-test port does this with 1 ms) */
+int vp_opt_pad = 0;
 int vp_fail_rc = -1;            /* what a failing int-returning getter returns: the core's convention is 0 = success */
 int vp_silent = 0;
 void (*vp_send_hook)(vp_iface *ifc, const uint8_t *frame, size_t len) = NULL;
@@ -239,13 +240,16 @@ void *lltd_port_malloc(size_t size) {
         }
         vp_fault_malloc_k--;
     }
-    void *p = malloc(size);
+    /* vp_opt_pad (plain builds only): the block is followed by pad bytes that belong to nobody and carry the fill pattern
+     * too - a read that runs past a block then returns bytes that differ from run to run instead of allocator metadata */
+    size_t padded = size + (size_t)vp_opt_pad;
+    void *p = malloc(padded);
     if (!p) return NULL;
     vp_led.allocs_total++;
     led_add(p, size);
 #ifndef VP_MSAN
-    if (vp_fill_mode >= 0 && vp_fill_mode < 256) memset(p, vp_fill_mode, size);
-    else if (vp_fill_mode == 256) vp_fill_stream(p, size, vp_fill_seed + (uint32_t)vp_led.allocs_total);
+    if (vp_fill_mode >= 0 && vp_fill_mode < 256) memset(p, vp_fill_mode, padded);
+    else if (vp_fill_mode == 256) vp_fill_stream(p, padded, vp_fill_seed + (uint32_t)vp_led.allocs_total);
 #endif
     return p;
 }
